@@ -436,6 +436,7 @@ func (e *Env) runRPC() error {
 	mtproto.VerifPointHook = st.dir.hook
 	for _, s := range e.Servers {
 		s.OnRequest = st.onRequest
+		s.SeqStart = spec.ServerSeqStart
 	}
 	if !spec.Fresh {
 		if e.Sc.Resume == nil {
@@ -561,7 +562,7 @@ func (e *Env) runRPC() error {
 					result = resultBody(p.kind, it.Tag)
 				}
 				if it.Gzip {
-					result = refsrv.GzipPacked(result)
+					result = refsrv.GzipPackedStyle(result, it.GzipStyle)
 				}
 				body := refsrv.RpcResult(p.req.MsgID, result)
 				e.Srv.LogNote("answer", c, p.req.MsgID, fmt.Sprintf("tag=%d gzip=%v container=%v err=%d", it.Tag, it.Gzip, step.Container, it.ErrCode))
@@ -678,6 +679,13 @@ func (e *Env) runRPC() error {
 			} else {
 				e.Res.Notes = append(e.Res.Notes, fmt.Sprintf("step %d: no connection to rotate on", i))
 			}
+		case "rotate-rolling":
+			// each of the next N content-related messages finds the salt it carries just retired
+			srv := e.Srv
+			if step.Server != "" && e.Servers[step.Server] != nil {
+				srv = e.Servers[step.Server]
+			}
+			atomic.StoreInt32(&srv.RollingSalts, int32(step.N))
 		case "bad-salt":
 			// salt rotation announced for a message nobody waits for: an unknown id (Push.Kind "unknown") or the id of
 			// an already answered request (Push.Kind "answered", tag in Push.Arg)
@@ -730,6 +738,16 @@ func (e *Env) runRPC() error {
 			if c := st.conn(step.Server); c != nil {
 				e.Srv.LogNote("close", c, 0, "")
 				c.Close()
+			}
+		case "close-latest":
+			// the server closes the newest connection whether or not the client has said anything on it yet
+			srv := e.Srv
+			if step.Server != "" && e.Servers[step.Server] != nil {
+				srv = e.Servers[step.Server]
+			}
+			if cs := srv.Conns(); len(cs) > 0 && !cs[len(cs)-1].Closed() {
+				e.Srv.LogNote("close", cs[len(cs)-1], 0, "before the client spoke")
+				cs[len(cs)-1].Close()
 			}
 		case "await-calls":
 			if !st.awaitCalls() {
